@@ -5,6 +5,7 @@ package main
 import (
 	"fmt"
 	"os"
+	"runtime/pprof"
 	"sort"
 
 	"verif/checks"
@@ -36,6 +37,14 @@ func main() {
 		root = "/verif"
 	}
 	c := ev.New(id, tier, ch.Level, root)
+	if pf := os.Getenv("VERIF_CPUPROFILE"); pf != "" {
+		f, _ := os.Create(pf)
+		pprof.StartCPUProfile(f)
+		ch.Run(c)
+		pprof.StopCPUProfile()
+		f.Close()
+		os.Exit(c.Finish())
+	}
 	ch.Run(c)
 	os.Exit(c.Finish())
 }
